@@ -60,7 +60,15 @@ def parse_stages(rep):
         parts = l.split(" ", 2)
         if len(parts) < 2:
             continue
-        out[parts[0]] = (parts[1], parts[2] if len(parts) > 2 else "")
+        payload = parts[2] if len(parts) > 2 else ""
+        if parts[1] == "OK" and parts[0][:2] in ("S6", "S7") and '"' in payload:
+            # `<nargs> "<escaped text>"` or `"<escaped text>"` -> plain text (nargs kept in front)
+            k = payload.index('"')
+            try:
+                payload = payload[:k] + sx_parse(payload[k:])[1]
+            except Exception:
+                pass
+        out[parts[0]] = (parts[1], payload)
     return out
 
 
